@@ -118,7 +118,15 @@ def rule_c18_r2(model: Model) -> RuleResult:
                     continue
             q = model.resolve(c.func, f.module, f)
             is_conv = isinstance(c.func, ast.Attribute) and c.func.attr == '_converter'
-            if q not in takers and not is_conv:
+            is_super_init = unparse(c.func) == 'super().__init__' and f.cls is not None and f.name == '__init__' and any(
+                b in takers for b in model.mro(f.cls.qualname)[1:])
+            is_global_handler = False
+            if isinstance(c.func, ast.Name):
+                par = next((a for a in ancestors(c) if isinstance(a, ast.For)), None)
+                if par is not None and isinstance(par.target, ast.Name) and par.target.id == c.func.id and \
+                        model.resolve(par.iter, f.module, f) == 'pane.convert._GLOBAL_HANDLERS':
+                    is_global_handler = True
+            if q not in takers and not is_conv and not is_super_init and not is_global_handler:
                 continue
             if q is not None and q in takers and f.qualname == q + '.__init__' and isinstance(c.func, ast.Attribute) and unparse(c.func).startswith('super()'):
                 pass
@@ -354,28 +362,51 @@ def rule_c19_r2(model: Model) -> RuleResult:
         f = model.func(fq)
         r.instances += 1
         calls = [c for c in ast.walk(f.node) if isinstance(c, ast.Call) and model.resolve(c.func, f.module, f) == 'pane.convert.into_data']
-        if len(calls) == 1 and [unparse(a) for a in calls[0].args] == ['obj', 'ty'] and {k.arg: unparse(k.value) for k in calls[0].keywords} == {'custom': 'custom'}:
+        if len(calls) == 1 and [unparse(a) for a in calls[0].args] == f.params[:1] + ['ty'] \
+                and {k.arg: unparse(k.value) for k in calls[0].keywords} == {'custom': 'custom'}:
             r.ok()
         else:
             r.fail(fq, 'into_data(obj, ty, custom=custom)', f.loc(), "the value is not serialised with the given type and handlers before being written")
     for fq in ('pane.classes.PaneBase.write_json', 'pane.classes.PaneBase.write_yaml'):
         f = model.func(fq)
+        cfg = cfg_of(model, f)
+        nz = Normalizer(model, f, cfg, param_map=_pm(f))
         r.instances += 1
-        src = unparse(f.node)
-        if 'ty=self.__class__' in src and re.search(r'return buf\.getvalue\(\) if f is None else None', src) and re.search(r'buf = StringIO\(\) if f is None else f', src):
+        target = 'pane.io.' + fq.split('.')[-1]
+        sink = ty = None
+        for n in cfg.live_nodes():
+            for root in node_exprs(n):
+                for c in walk_no_nested(root):
+                    if isinstance(c, ast.Call) and model.resolve(c.func, f.module, f) == target and len(c.args) >= 2:
+                        sink = nz.expr(c.args[1], n)
+                        ty = next((nz.expr(k.value, n) for k in c.keywords if k.arg == 'ty'), None)
+        rets = [nz.expr(n.ast.value, n) for n in cfg.live_nodes() if n.kind == 'return' and n.ast is not None and n.ast.value is not None]
+        buf = '(io.StringIO() if $f is None else $f)'
+        r.sample({fq: {'sink': sink, 'returns': rets}})
+        if sink in (buf, '(io.StringIO() if None is $f else $f)') and ty == 'self.__class__' and len(rets) == 1 and \
+                re.match(r'^\(\(io\.StringIO\(\) if (\$f is None|None is \$f) else \$f\)\.getvalue\(\) if (\$f is None|None is \$f) else None\)$', rets[0]):
             r.ok()
         else:
-            r.fail(fq, 'string / file variants', f.loc(), "the method must write self as its own class and return the text exactly when no file was given")
+            r.fail(fq, f"sink={sink}, ty={ty}, returns {rets}", f.loc(), "the method must write self as its own class and return the text exactly when no file was given")
     # readers
     for (fq, lib) in (('pane.io.from_json', 'json.load'), ('pane.io.from_yaml', 'yaml.load'), ('pane.io.from_yaml_all', 'yaml.load_all')):
         f = model.func(fq)
         r.instances += 1
         r.analysed.add(fq)
-        calls = [c for c in ast.walk(f.node) if isinstance(c, ast.Call) and model.resolve(c.func, f.module, f) == 'pane.convert.from_data']
-        if len(calls) == 1 and {k.arg: unparse(k.value) for k in calls[0].keywords} == {'custom': 'custom'} and unparse(calls[0].args[0]) == 'obj':
+        cfg = cfg_of(model, f)
+        nz = Normalizer(model, f, cfg, param_map=_pm(f))
+        good = False
+        for n in cfg.live_nodes():
+            for root in node_exprs(n):
+                for c in walk_no_nested(root):
+                    if isinstance(c, ast.Call) and model.resolve(c.func, f.module, f) == 'pane.convert.from_data' and c.args:
+                        a0 = nz.expr(c.args[0], n)
+                        if {k.arg: unparse(k.value) for k in c.keywords} == {'custom': 'custom'} and lib + '(CTX(pane.io.open_file($f))' in a0:
+                            good = True
+        if good:
             r.ok()
         else:
-            r.fail(fq, 'from_data(obj, ty, custom=custom)', f.loc(), "the parsed document is not converted with the given type and handlers")
+            r.fail(fq, 'from_data(<parsed document>, ty, custom=custom)', f.loc(), "the parsed document is not converted with the given type and handlers")
     for name in ('from_json', 'from_yaml', 'from_yaml_all', 'from_yamls', 'from_jsons'):
         f = model.func(f'pane.classes.PaneBase.{name}')
         r.instances += 1
@@ -455,8 +486,10 @@ def rule_c19_r3(model: Model) -> RuleResult:
     r.analysed.add(f.qualname)
     objs = []
     for n in cfg.live_nodes():
-        if n.kind in ('stmt', 'with') and isinstance(n.ast, ast.Assign) and any(unparse(tg) == 'obj' for tg in n.ast.targets):
-            objs.append(nz.expr(n.ast.value, n))
+        for root in node_exprs(n):
+            for c in walk_no_nested(root):
+                if isinstance(c, ast.Call) and model.resolve(c.func, f.module, f) == 'pane.convert.from_data' and c.args:
+                    objs.append(nz.expr(c.args[0], n))
     r.sample({'from_yaml_all documents': objs})
     if objs and all(re.match(r'^list\(yaml\.load_all\(CTX\(pane\.io\.open_file\(\$f\)\), .*\)\)$', x) or re.match(r'^list\(yaml\.load_all\(.*\)\)$', x) and ' if ' not in x for x in objs):
         r.ok()
